@@ -25,6 +25,30 @@ REQUIRED = {
 }
 
 
+class _WithInherited:
+    """the comparer class with the methods it inherits from base classes of the package filed in (methods pulled up into a private base
+    class are still the comparer's methods)"""
+
+    def __init__(self, P, cls):
+        self._cls = cls
+        self.methods = dict(cls.methods)
+        seen, todo = {cls.name}, list(cls.base_names)
+        while todo:
+            b = todo.pop().split(".")[-1]
+            if b in seen:
+                continue
+            seen.add(b)
+            for m2 in P.modules.values():
+                c2 = m2.classes.get(b)
+                if c2 is not None:
+                    for k, v in c2.methods.items():
+                        self.methods.setdefault(k, v)
+                    todo.extend(c2.base_names)
+
+    def __getattr__(self, name):
+        return getattr(self._cls, name)
+
+
 def _side_of_name(name):
     n = name.lower()
     o = "orig" in n or n in ("oi",)
@@ -70,7 +94,11 @@ class Sides:
     def of(self, e):
         """O / C / 'mixed' / None (no side)"""
         sides = set()
+        # (a plain name used as an index selects the entry; it is not what the quantity is a quantity of — `erase` drops it likewise)
+        index_names = {id(s_.slice) for s_ in ast.walk(e) if isinstance(s_, ast.Subscript) and isinstance(s_.slice, ast.Name)}
         for n in ast.walk(e):
+            if id(n) in index_names:
+                continue
             if isinstance(n, ast.Name) and n.id in self.side:
                 sides.add(self.side[n.id])
             elif isinstance(n, ast.Attribute) and isinstance(n.value, ast.Name) and n.value.id == "self" and n.attr in ("ir_orig", "ir_composer"):
@@ -344,7 +372,7 @@ def _k7_k8(ctx, R, cc):
           "one-sided or missing comparison; acceptance of faithful copies depends on C07/C03/C04 and is not decided.")
 def check_c20(ctx, R):
     P = ctx.P
-    cc = P.cls(CMP, "Comparer")
+    cc = _WithInherited(P, P.cls(CMP, "Comparer"))
     _k6(ctx, R, cc)
     _k7_k8(ctx, R, cc)
     R.rule("K1", "two-sidedness of every asserted comparison and two-sided helper call")
